@@ -27,7 +27,7 @@ RULE = (
     "segments with one separator style per URI from {/, //, \\, \\/} and <=3 segments with every "
     "per-join separator mix; thorough: <=6 uniform, <=4 mixed; leading in {none, /, //, \\, ../, ..\\}. "
     "Each URI is looked up directly (get_template + has_template) and, for the <=3 (quick) / <=4 "
-    "(thorough) segment set, through 6 tag/API forms from calling templates at depth 0..3, under "
+    "(thorough) segment set, through 9 tag/API forms (three of them calling the API of a named file namespace, which resolves against that namespace) from calling templates at depth 0..3, under "
     "rotating configurations (module_directory on/off, 5 root spellings, 1 or 2 roots). "
     "distinct = by URI string (sharded by hash, de-duplicated); non-trivial = the URI, resolved "
     "independently with posixpath against the caller, leaves the root (an escape attempt) or "
@@ -48,7 +48,10 @@ SEPS = ["/", "//", "\\", "\\/"]
 LEADS = ["", "/", "//", "\\", "../", "..\\"]
 CANARY = "CANARY-OUTSIDE"
 ROOT_SPELLINGS = ["plain", "slash", "dot", "subdot", "relative"]
-TAGFORMS = ["include", "inherit", "namespace", "api_get_namespace", "api_get_template", "api_include_file"]
+TAGFORMS = ["include", "inherit", "namespace", "api_get_namespace", "api_get_template", "api_include_file",
+            "nsapi_get_namespace", "nsapi_get_template", "nsapi_include_file"]
+# the nsapi_* callers reach /lib.html as a named namespace and call ITS api: the URI resolves against /lib.html
+# ("relative to the uri of the namespace itself", Namespace.get_namespace), wherever the caller lives
 
 _st = {}
 _audit = {"on": False, "events": []}
@@ -97,6 +100,10 @@ def setup_worker():
         w(d + "c_api_get_namespace.html", "C[${local.get_namespace(u).body()}]")
         w(d + "c_api_get_template.html", "C[${local.get_template(u).render()}]")
         w(d + "c_api_include_file.html", "C[<% local.include_file(u) %>]")
+        w(d + "c_nsapi_get_namespace.html", '<%namespace name="lib" file="/lib.html"/>C[${lib.get_namespace(u).body()}]')
+        w(d + "c_nsapi_get_template.html", '<%namespace name="lib" file="/lib.html"/>C[${lib.get_template(u).render()}]')
+        w(d + "c_nsapi_include_file.html", '<%namespace name="lib" file="/lib.html"/>C[<% lib.include_file(u) %>]')
+    w("root/lib.html", "IN:lib\n")
     sys.addaudithook(_hook)
     import atexit
 
@@ -262,7 +269,7 @@ def via_tag(look, uri, res, cfgname):
             audit_check(res, what)
             if out is not None:
                 hit = True
-                if expect_class(uri, curi) == "outside":
+                if expect_class(uri, "/lib.html" if form.startswith("nsapi_") else curi) == "outside":
                     res.violate("escape-not-rejected", "%s rendered %r although the URI resolves above the root" % (what, out[:60]), witness=what)
                 if CANARY in out:
                     res.violate("canary-in-output", "%s rendered %r" % (what, out), witness=what)
